@@ -149,6 +149,9 @@ func parseValues(out string) map[string]string {
 }
 
 // renderObligation prepares the SMT queries of an obligation (one per alternative).
+// skipHyps: indices of hypotheses to leave out (assumptions of failed obligations).
+var skipHyps map[int]bool
+
 func renderObligation(ex *Exec, o *Obligation, wantModel bool) []string {
 	goals := o.Alts
 	if len(goals) == 0 {
@@ -161,7 +164,16 @@ func renderObligation(ex *Exec, o *Obligation, wantModel bool) []string {
 			return nil
 		}
 		ng := Not(g)
-		asserts := relevantHyps(ex.hyps[:o.NHyps], ng)
+		hs := ex.hyps[:o.NHyps]
+		if len(skipHyps) > 0 {
+			hs = nil
+			for i, h := range ex.hyps[:o.NHyps] {
+				if !skipHyps[i] {
+					hs = append(hs, h)
+				}
+			}
+		}
+		asserts := relevantHyps(hs, ng)
 		asserts = append(asserts, ng)
 		q := RenderQuery(asserts, o.ValTerms, ex.quant, "", wantModel)
 		if dn := os.Getenv("IKEVERIF_DUMPNAME"); dn != "" && strings.Contains(o.Name, dn) {
